@@ -256,6 +256,41 @@ def own_restore(p, res):
     res.require_floor(3)
 
 
+# -------------------------------------------------------------- OWN-TOKTREE
+@rule('OWN-TOKTREE', 'D', 'the converter never modifies the parsed token tree it reads (it is converted once per repetition), except the reviewed temporary repeater override')
+def own_toktree(p, res):
+    eff = effects.get(p)
+    token_types = {'TokenElement', 'TokenGroup', 'TokenAttribute', 'TokenAbbreviation'}
+    n = 0
+    seen = set()
+    for f in p.find_funcs('abbreviation.convert'):
+        for pname in f.params:
+            ann = f.annotations.get(pname)
+            if ann is None or src_of(ann).split('.')[-1] not in token_types:
+                continue
+            n += 1
+            bad = 0
+            for o, info in eff.sum[f.qualname].all_sites():
+                if o[0] != ('param', pname):
+                    continue
+                # reviewed: convert_statement installs a clone of the repeater on the node while its copies are converted and puts
+                # the original back afterwards (PATH-STACK / PATH-ONCE check the pairing)
+                if info[0] == 'emmet.abbreviation.convert.convert_statement' and info[2].replace(' ', '').startswith('node.repeat='):
+                    continue
+                bad += 1
+                key = (info[0], info[2])
+                if key in seen:
+                    continue
+                seen.add(key)
+                res.bad(mut_finding(p, 'OWN-TOKTREE', o, info,
+                                    'the parsed abbreviation (%s) is modified while it is converted: every further copy of a repeated element, and every later conversion, sees the modified tokens' % show(o),
+                                    where='%s(%s)' % (f.short, pname)))
+            if not bad:
+                res.ok('%s: nothing reachable from the token tree `%s` is modified' % (f.short, pname))
+    res.stats['token_tree_parameters'] = n
+    res.require_floor(4)
+
+
 # ---------------------------------------------------------------- OWN-CACHE
 @rule('OWN-CACHE', 'D', 'objects stored in the snippet cache are never mutated after they were built')
 def own_cache(p, res):
